@@ -2,9 +2,10 @@ import RegexVerif.Sexp
 import RegexVerif.Model.AutoAtomic
 import RegexVerif.Driver.SpecIO
 import RegexVerif.Driver.C04
+import RegexVerif.Driver.C05Rw
 
 namespace RegexVerif.Driver
-open RegexVerif Sexp Spec AutoAtomic
+open RegexVerif Sexp Spec AutoAtomic RewriteDecisions
 
 def siteSexp : Site → Sexp
   | .acc p => mk "acc" [predSexp p]
@@ -37,7 +38,44 @@ def tableOracle (dj : List (Pred × Pred)) (un : List Pred) : Oracle :=
 
     `(c05 endfix <p'>)` → `(ok 0|1)`: is the tree a fixed point of `endAtomicTop`? -/
 def handleC05 (args : List Sexp) : String :=
+  match handleC05Rw args with
+  | some s => s
+  | none =>
   match args with
+  | [.atom "rwcert", rtl, n, n', dj, un] =>
+    -- `(c05 rwcert <rtl> <un-rewritten n-ary tree> <rewritten n-ary tree> (disj …) (uni …))` →
+    -- `(ok <corresponds 0|1> <proved-variant-agrees 0|1> (made N) (errs E…) (mid <rnode>) (dg 0|1))`: Lean's
+    -- model of the gated rewrites (`rewriteTop`, all cases) applied to the un-rewritten tree gives `mid`;
+    -- `cert` (Model/AutoAtomic.lean) validates `toPat mid` against the engine's rewritten tree: equality up
+    -- to certified auto-atomic / ending differences.  When the proved variant (`ll = false`) computes the
+    -- same `mid`, Props.C05.rewrites_certified applies: same `find` from every start.  Both readings of an
+    -- alternation directly under an Atomic node (`dg`) are tried.
+    match rtl.bool?, rnode? n, rnode? n', tagged? "disj" dj, tagged? "uni" un with
+    | some rtl, some n, some n', some dj, some un =>
+      match dj.mapM predPair?, un.mapM pred? with
+      | some dj, some un =>
+        let o := tableOracle dj un
+        let fuel := 2 * size n + 8
+        let p' := toPat rtl n'
+        let answer (dg : Bool) : Bool × String :=
+          let mid := rewriteTop false dg fuel rtl n
+          let midLL := rewriteTop true dg fuel rtl n
+          let pLL := toPat rtl midLL
+          let r := (cert o rtl pLL p').close
+          -- correspondence: the full model against the engine's tree
+          let okLL := certTopDir o rtl pLL p'
+          -- the proved variant agrees with the full model: `rewrites_certified` applies
+          let same := RNode.same mid midLL
+          (okLL, toString (Sexp.list [.atom "ok", ofBool okLL, ofBool same,
+            mk "made" [ofNat r.made], mk "errs" (r.errs.map errSexp), mk "mid" [rnodeSexp midLL], mk "dg" [ofBool dg],
+            -- for the histogram: what the certifier alone (without the model of the rewrites) says
+            mk "base" [ofBool (certTopDir o rtl (toPat rtl n) p')]]))
+        let a1 := answer true
+        if a1.1 then a1.2 else
+        let a0 := answer false
+        if a0.1 then a0.2 else a1.2
+      | _, _ => "(bad-oracle)"
+    | _, _, _, _, _ => "(bad-args)"
   | [.atom "cert", rtl, p, p', dj, un] =>
     match rtl.bool?, pat? p, pat? p', tagged? "disj" dj, tagged? "uni" un with
     | some rtl, some p, some p', some dj, some un =>
